@@ -255,10 +255,12 @@ func (x *Exec) applyContract(bc *blockCtx, in ssa.Instruction, f *ssa.Function, 
 		}
 	}
 	var res *Val
-	if fc.Pure && sig.Results().Len() == 1 && len(f.FreeVars) == 0 {
+	if fc.Pure && sig.Results().Len() >= 1 && len(f.FreeVars) == 0 {
 		// deterministic: the result is a function of the arguments
 		res = x.pureFuncApp(&CEnv{x: x, st: bc.st, old: pre, vars: vars, pkg: fnPkg(f), guard: bc.reach, fc: fc, depth: 3}, f, fc, args)
-		x.rangeFacts(res.T, res.Typ, bc.reach, 1)
+		if res.T != nil {
+			x.rangeFacts(res.T, res.Typ, bc.reach, 1)
+		}
 	} else {
 		res = x.havocResult(bc, sig, name)
 	}
